@@ -22,8 +22,8 @@ RULE = ("programs = pre [n body] post with n in 1..6 or omitted (=2), bodies of 
         "non-trivial = distinct source with a loop of count >= 2 or a ':'")
 TRUSTED = ["the lexer is compositional at command boundaries (a body followed by a space lexes the same before ']' and "
            "before its own next copy) - this is C03's printer lemma, here exercised but not proved"]
-ASSUMES = ["counts are literals 1..6 or omitted; an omitted count is never followed by '(', '=' or a digit (read_loop would "
-           "take it as the count)",
+ASSUMES = ["counts are literals 1..6 or omitted; an omitted count is never followed (after blanks and /* */ comments) by '(', "
+           "'=' or a digit (read_loop would take it as the count)",
            "commands are closed in the sense of DESIGN 6.0: an unparenthesised expression argument (@40, TEMPO=90) is ended by "
            "';' - otherwise it absorbs a following ':' as an argument separator and there is no loop break in the token list",
            "TimeBase(...) is not generated inside bodies: it is a parse-time directive (applied once per occurrence in the "
@@ -36,7 +36,7 @@ COUNTS = ["1", "2", "3", "4", "5", "6", "", "2", "3", "1"]
 # commands that switch track / channel / voice or write controllers, all CLOSED (see ASSUMES): state that must be
 # carried from pass to pass exactly as in the unrolled text
 TRACK_POOL = ["TR(1)", "TR(2)", "TR(3)", "Track(5)", "TRACK(0)", "TR(10)", "TR(16)", "CH(1)", "CH(2)", "CH(10)", "Channel(16)",
-              "@1;", "@5;", "@40;", "@128;", "@(25)", "Tempo(120)", "TEMPO=90;", "Tempo(500)", "y7,100;", "y(10,20)", "M(64)", "V(100)",
+              "@1;", "@5;", "@40;", "@128;", "@(25)", "Tempo(120)", "TEMPO=90;", "Tempo(500)", "y7,100;", "y10,20;", "M(64)", "V(100)",
               "P(32)", "EP(90)", "REV(40)", "PB(100)", "p(64)", "BR(12)", "TimeSignature(3,4)", "KeyShift(2)", "TrackKey(-1)",
               "KF+(fc)", "KF-(b)", "KeyFlag=(0,0,0,0,0,0,0)", "TrackSync;", "TIME(2:1:0)", "TIME(96)", "MeasureShift(1)"]
 
@@ -69,6 +69,16 @@ def count_of(n):
     return 2 if n == "" else int(n)
 
 
+def first_after_space(s):
+    """the character read_loop looks at: SourceCursor::skip_space skips blanks, tabs and /* */ comments"""
+    while True:
+        s = s.lstrip(" \t")
+        if s.startswith("/*") and "*/" in s:
+            s = s[s.index("*/") + 2:]
+        else:
+            return s[:1]
+
+
 def render(items, mode):
     """mode: 'loop' = as written, 'full' = every loop unrolled, 'outer' = only the outermost loops unrolled"""
     parts = []
@@ -82,7 +92,7 @@ def render(items, mode):
             if mode == "loop":
                 sa = render(a, "loop")
                 head = n
-                if n == "" and sa.lstrip(" \t")[:1] in set("(=0123456789-$!{") | {""}:
+                if n == "" and first_after_space(sa) in set("(=0123456789-$!{") | {""}:
                     head = "2"      # read_loop would read the body's first character as the count
                 s = "[" + head + " " + sa
                 if b is not None:
